@@ -536,6 +536,170 @@ func runStep(t *testing.T, run *vt.Run, c vt.CaseID, sc stepCase) {
 	}
 }
 
+// ---- spawners that run one function at a time ---------------------------------------------------
+//
+// DoBatchOptions.Go may be any spawner: one that runs the function inline, a single worker draining a queue, a
+// spawner that blocks while another function is still running (a semaphore of one). With those the replica
+// functions run strictly one after the other in hand-over order and the cleanup waiter must not occupy the only slot
+// before them. Callbacks are not parked here (a parked callback would park the whole spawner); each takes a few
+// virtual milliseconds. Judged at the end: returned exactly once, nil iff every key reached its quorum, the error one
+// a replica returned, every selected replica called once with its indexes, cleanup once and after the last call.
+func runSerial(t *testing.T, run *vt.Run, c vt.CaseID, sc stepCase) {
+	sh := sc.Shape
+	ids, idx := sh.calls()
+	var seq atomic.Int64
+	var mu sync.Mutex
+	type callRec struct {
+		indexes    []int
+		start, end int64
+	}
+	callsMade := map[string][]*callRec{}
+	var cleanupSeqs []int64
+	var spawned atomic.Int64
+	viol := func(sig, what string, extra map[string]any) {
+		d := map[string]any{"case": sc}
+		for k, v := range extra {
+			d[k] = v
+		}
+		run.Violation(c, "serial-spawner/"+sig, what, d)
+	}
+	ctx, cancel := context.WithCancelCause(context.Background())
+	defer cancel(nil)
+	opts := ring.DoBatchOptions{
+		Cleanup: func() {
+			mu.Lock()
+			cleanupSeqs = append(cleanupSeqs, seq.Add(1))
+			mu.Unlock()
+		},
+		IsClientError: func(err error) bool { var ce clientErr; return errors.As(err, &ce) },
+	}
+	var queue chan func()
+	switch sc.Spawner {
+	case "inline":
+		opts.Go = func(f func()) { spawned.Add(1); f() }
+	case "single-worker":
+		queue = make(chan func(), 256)
+		go func() {
+			for f := range queue {
+				f()
+			}
+		}()
+		opts.Go = func(f func()) { spawned.Add(1); queue <- f }
+	case "semaphore-1":
+		sem := make(chan struct{}, 1)
+		opts.Go = func(f func()) {
+			spawned.Add(1)
+			sem <- struct{}{}
+			go func() {
+				defer func() { <-sem }()
+				f()
+			}()
+		}
+	}
+	callback := func(d ring.InstanceDesc, indexes []int) error {
+		rec := &callRec{indexes: append([]int(nil), indexes...), start: seq.Add(1)}
+		mu.Lock()
+		callsMade[d.Id] = append(callsMade[d.Id], rec)
+		mu.Unlock()
+		time.Sleep(time.Duration(1+len(d.Id)%3) * time.Millisecond)
+		var err error
+		switch sc.Outcomes[d.Id] {
+		case oClient:
+			err = clientErr{d.Id}
+		case oServer:
+			err = serverErr{d.Id}
+		}
+		mu.Lock()
+		rec.end = seq.Add(1)
+		mu.Unlock()
+		return err
+	}
+	retCh := make(chan error, 2)
+	go func() { retCh <- ring.DoBatchWithOptions(ctx, ring.Write, sh.ring, sh.Keys, callback, opts) }()
+	time.Sleep(time.Minute)
+	synctest.Wait()
+	var returned []error
+	poll := func() {
+		for {
+			select {
+			case e := <-retCh:
+				returned = append(returned, e)
+				continue
+			default:
+			}
+			return
+		}
+	}
+	poll()
+	answered := map[string]int{}
+	for _, id := range ids {
+		answered[id] = sc.Outcomes[id]
+	}
+	d := decide(sh, answered)
+	if len(returned) == 0 {
+		viol("never-returned", fmt.Sprintf("with the %s spawner DoBatch has not returned after a virtual minute although no callback blocks", sc.Spawner), map[string]any{"calls_made": len(callsMade)})
+		cancel(errCancelCause)
+		time.Sleep(time.Minute)
+		synctest.Wait()
+		poll()
+	} else {
+		err := returned[0]
+		switch {
+		case d == mustSucceed && err != nil:
+			viol("error-despite-quorum", fmt.Sprintf("DoBatch returned %v although every key has its quorum", err), nil)
+		case (d == mustFail || d == mayFail) && err == nil:
+			viol("success-without-quorum", "DoBatch returned nil although some key ended without quorum", nil)
+		}
+		if err != nil {
+			ok := false
+			for _, id := range ids {
+				if err == error(clientErr{id}) || err == error(serverErr{id}) {
+					ok = sc.Outcomes[id] != oOK
+				}
+			}
+			if !ok {
+				viol("error-not-from-a-replica", fmt.Sprintf("DoBatch returned error %q which no replica returned", err), nil)
+			}
+		}
+	}
+	if len(returned) > 1 {
+		viol("returned-twice", "DoBatch returned twice", nil)
+	}
+	mu.Lock()
+	for _, id := range ids {
+		cs := callsMade[id]
+		if len(cs) != 1 {
+			viol("replica-call-count", fmt.Sprintf("replica %s called %d times", id, len(cs)), nil)
+			continue
+		}
+		got := append([]int(nil), cs[0].indexes...)
+		sort.Ints(got)
+		if fmt.Sprint(got) != fmt.Sprint(idx[id]) {
+			viol("replica-wrong-indexes", fmt.Sprintf("replica %s called with indexes %v, serves %v", id, cs[0].indexes, idx[id]), nil)
+		}
+	}
+	if len(cleanupSeqs) != 1 {
+		viol("cleanup-count", fmt.Sprintf("cleanup ran %d times", len(cleanupSeqs)), nil)
+	} else {
+		for id, cs := range callsMade {
+			for _, r := range cs {
+				if r.end == 0 || r.end > cleanupSeqs[0] {
+					viol("cleanup-before-replica-calls-finished", "cleanup ran before replica call "+id+" finished", nil)
+				}
+			}
+		}
+	}
+	mu.Unlock()
+	if len(sh.Keys) > 0 && int(spawned.Load()) != len(ids)+1 {
+		viol("custom-spawner-bypassed", fmt.Sprintf("custom Go spawner used %d times for %d replica calls + cleanup", spawned.Load(), len(ids)), nil)
+	}
+	if queue != nil {
+		close(queue)
+	}
+	run.EvalH(vt.Hash64(fmt.Sprintf("serial|%v|%v|%s", sh.Sets, sc.Outcomes, sc.Spawner)), len(ids) > 1)
+	run.Count("serial_spawner_runs", 1)
+}
+
 func permutations(ids []string, f func([]string)) {
 	p := append([]string(nil), ids...)
 	var rec func(k int)
@@ -643,6 +807,39 @@ func TestC10(t *testing.T) {
 			seed := rng.Uint64()
 			runAll(func() *shape { return partitionShape(rand.New(rand.NewPCG(seed, 3))) })
 		}
+	})
+
+	// spawners that run one function at a time
+	run.ForEachT(t, "serial-spawner", vt.N(600, 20000), func(t *testing.T, c vt.CaseID, rng *rand.Rand, s *vt.Slot) {
+		s.Enter(c, "batch/serial-spawner")
+		defer s.Leave()
+		synctest.Test(t, func(t *testing.T) {
+			var sh *shape
+			switch k := rng.IntN(10); {
+			case k < 6:
+				sh = fakeShape(rng, 2+rng.IntN(5))
+			case k < 9:
+				sh = realShape(rng)
+			default:
+				sh = partitionShape(rng)
+			}
+			if sh == nil {
+				return
+			}
+			if sh.stop != nil {
+				defer sh.stop()
+			}
+			ids, _ := sh.calls()
+			out := map[string]int{}
+			for _, id := range ids {
+				out[id] = rng.IntN(3)
+				if rng.IntN(2) == 0 {
+					out[id] = oOK
+				}
+			}
+			sp := []string{"inline", "single-worker", "semaphore-1"}[rng.IntN(3)]
+			runSerial(t, run, c, stepCase{Shape: sh, Outcomes: out, CancelAt: -1, Spawner: sp})
+		})
 	})
 
 	// empty key list, with and without a context that ends
